@@ -42,7 +42,9 @@ def units(tier):
             out.append({'fam': 'top', 'inner': inner, 'L': Li, 'shard': [sh, n]})
     for sh in range(4):
         out.append({'fam': 'top', 'inner': 'to_list', 'L': 5 if tier == 'quick' else 6, 'shard': [sh, 4], 'alpha': [6, 7, 8, 9, 3]})
-    out.append({'fam': 'many', 'wide': True, 'shard': [0, 1]})
+    out.append({'fam': 'many', 'wide': True, 'shard': [0, 1], 'tier': tier})
+    for sh in range(2):
+        out.append({'fam': 'top', 'inner': 'to_list', 'L': 5 if tier == 'quick' else 6, 'shard': [sh, 2], 'alpha': [0, 1, 2, 3, 4], 'keyf': 'k_falsy'})
     ng = 10 if tier == 'quick' else 13
     for sh in range(8):
         out.append({'fam': 'many', 'groups': ng, 'shard': [sh, 8]})
@@ -63,10 +65,12 @@ def cases(unit):
     if fam == 'top':
         for i, seq in enumerate(spaces.sequences(unit.get('alpha', [0, 1, 2, 3, 4]), unit['L'])):
             if i % n == sh:
-                yield {'fam': 'top', 'inner': unit['inner'], 'seq': seq}
+                yield dict({'fam': 'top', 'inner': unit['inner'], 'seq': seq}, **({'keyf': unit['keyf']} if unit.get('keyf') else {}))
     elif fam == 'many' and unit.get('wide'):
         yield {'fam': 'wide', 'n': 300}
         yield {'fam': 'wide', 'n': 129}
+        if unit.get('tier') != 'quick':
+            yield {'fam': 'wide', 'n': 65544}
     elif fam == 'many':
         # many groups: the j-th new inner group belongs to parent bit j of the mask (all 2^n assignments)
         for mask in range(2 ** unit['groups']):
@@ -127,9 +131,9 @@ def run_case(case, acc):
         acc.outcomes.add(fast_hash(repr(sink.items)))
         return out
     items = [10 * i + c for i, c in enumerate(case['seq'])]
-    keyf = opspecs.F('k_mixed')
+    keyf = opspecs.F(case.get('keyf', 'k_mixed'))
     if fam == 'top':
-        spec = [['group_by', 'k_mixed', INNERS[case['inner']]]]
+        spec = [['group_by', case.get('keyf', 'k_mixed'), INNERS[case['inner']]]]
     elif fam == 'ingroup':
         opspecs.FUNCS.setdefault('k_lt3', lambda x: 10 ** 20 + (1 if x % 10 < 3 else 0))
         spec = [['group_by', 'k_lt3', [['group_by', 'k_mixed', INNERS['to_list']], ['to_list']]]]
